@@ -45,6 +45,22 @@ FromDisk(d, base) ==
 (**************************** property conjuncts on one observation *********)
 PresentKeys(idx) == {k \in Keys : idx[k] # Absent}
 
+\* the remaining accessors of the read guard (contains_key, get_item, require_item, is_empty, keys_snapshot,
+\* contains_blob_hash, range() with excluded / unbounded ends) must tell the same story as iter()
+GuardApiFails(o, p) ==
+    IF ~o.gapi.on \/ ~Known(o.idx) THEN {} ELSE
+    LET g  == o.gapi
+        P  == PresentKeys(o.idx)
+        ks == SortedIds(P)
+    IN  Fail(/\ \A k \in Keys : g.has[k] = (k \in P) /\ g.req[k] = o.idx[k]
+             /\ \A k \in Keys : g.item[k] = <<o.idx[k], IF o.idx[k] = Absent THEN -1 ELSE SizeOfS(o.idx[k])>>
+             /\ g.empty = (P = {})
+             /\ g.snap = [i \in 1..Len(ks) |-> <<ks[i], o.idx[ks[i]]>>]
+             /\ \A i \in 1..Len(ContentSeq) : g.hasblob[i] = (ContentSeq[i] \in Live(o.idx))
+             /\ \A i \in 1..Len(g.xr) : /\ g.xr[i].above = SortedIds({k \in P : k > g.xr[i].k})
+                                        /\ g.xr[i].below = SortedIds({k \in P : k < g.xr[i].k})
+             /\ g.full = ks, p \o ":guard-api")
+
 \* every read API agrees with the index the same handle reports (C01 reads / C04 readable)
 ReadsFails(o, p) ==
     IF ~Known(o.idx) THEN {p \o ":unknown-content"} ELSE
@@ -55,6 +71,7 @@ ReadsFails(o, p) ==
       Fail(o.iter = SortedIds(PresentKeys(o.idx)) /\ o.len = Cardinality(PresentKeys(o.idx)) /\ o.xkeys = 0, p \o ":iteration"),
       Fail(\A i \in 1..Len(o.ranges) : LET r == o.ranges[i] IN
                 r.ks = SortedIds({k \in PresentKeys(o.idx) : k >= r.lo /\ k <= r.hi}), p \o ":range-iteration"),
+      GuardApiFails(o, p),
       Fail(\A i \in 1..Len(o.rng) : LET g == o.rng[i]  c == o.idx[g.k] IN
                 IF c = Absent THEN g.st = "-"
                 ELSE LET L == SizeOfS(c)  lo == Min(g.s, L)  hi == Min(g.e, L) IN
